@@ -227,7 +227,7 @@ structure Cfg where
   T : Tid → Thread
 
 def Thread.apply (th : Thread) : Next → Thread
-  | .call cl k => { th with cur := some (cl, k) }
+  | .call cl k => { th with cur := some (cl, k), exited := none }
   | .finish r ex => { th with cur := none, exited := ex, results := th.results ++ [r] }
 
 /-- One step of thread `t` (`none`: blocked, or its script is finished). -/
